@@ -343,6 +343,9 @@ func (p *cfg) ops(s S) []string {
 	for _, qs := range qss {
 		for _, k := range kinds {
 			for _, m := range ms {
+				if (m == "put" || m == "head" || m == "postdup") && k != "code" && k != "error" {
+					continue // the unusual methods: code and error callbacks only
+				}
 				for _, sc := range scs {
 					for _, pc := range pcs {
 						if sc != "asis" && pc != "asis" && (!p.pair || sc == "swap" || m != "get") {
